@@ -652,3 +652,28 @@ Proof.
   split; [apply (any_order_all_admitted o_G c_S c_S c_ops H1 (Permutation_refl _) H2 H3 H4 H5 H6 H7)|].
   vm_compute. reflexivity.
 Qed.
+
+(* ---------------------------------------------------------------- where the no-refusal premise comes from *)
+(* the no-refusal premise of one attempt follows from the static conditions of validate_complete on each examined tip *)
+Definition tip_passes_cond (L : ledger) (p : node) : Prop :=
+  amounts_canon L /\ In p (dag L) /\ valid_weight L (v_weight (nv p)) = true /\ v_ok (nv p) = true /\ tip_condition L p.
+
+Lemma parent_fineb_from_cond L h p : (has_child L h = false -> tip_passes_cond L p) -> parent_fineb L h p = true.
+Proof.
+  intros H. unfold parent_fineb. destruct (has_child L h) eqn:E; [reflexivity|]. cbn [orb].
+  destruct (H eq_refl) as (Hc & Hin & Hw & Hok & Ht). rewrite (validate_complete L p Hc Hin Hw Hok Ht). reflexivity.
+Qed.
+
+Theorem fine_atb_from_conditions L v :
+  (forall p1, find_node (v_left v) (dag L) = Some p1 ->
+     (has_child L (v_left v) = false -> tip_passes_cond L p1) /\
+     forall p2, find_node (v_right v) (dag L) = Some p2 ->
+       has_child (after_parent L (v_left v) p1) (v_right v) = false -> tip_passes_cond (after_parent L (v_left v) p1) p2) ->
+  fine_atb L v = true.
+Proof.
+  intros H. unfold fine_atb. destruct (find_node (v_left v) (dag L)) as [p1|] eqn:F1; [|reflexivity].
+  destruct (H p1 eq_refl) as [H1 H2]. rewrite (parent_fineb_from_cond _ _ _ H1). cbn [andb].
+  assert (Hd : dag (after_parent L (v_left v) p1) = dag L) by (unfold after_parent; destruct (has_child L (v_left v)); reflexivity).
+  rewrite Hd. destruct (find_node (v_right v) (dag L)) as [p2|] eqn:F2; [|reflexivity].
+  apply parent_fineb_from_cond. apply H2. reflexivity.
+Qed.
